@@ -230,6 +230,52 @@ pub fn exec(rec: &Value, _st: &mut State) -> Value {
             });
             json!({"tan": tan, "misc": misc})
         }
+        // ---- tangent points from a point thousands to hundreds of millions of radii away: the exact clauses would overflow, so the
+        //      harness reports relative residuals (derived observations, unit 2^-30): on the circle, tangent perpendicular to the
+        //      radius, the two points on opposite sides of the line from the point to the centre (left one first)
+        "tanfar" => {
+            let c = circle(&gvi(rec, "c"), s);
+            let p = pt(&gvi(rec, "p"), s);
+            let u = 1073741824.0;
+            guarded(|| match c.tangent_points_to(&p) {
+                None => json!({"some": false, "pts": []}),
+                Some((a, b)) => {
+                    let mut qq = Q::new();
+                    let o = Point2::new(c.x(), c.y());
+                    let axis = o - p;
+                    let pts: Vec<Value> = [a, b].iter().map(|t| {
+                        let (rv, tv) = (t - o, t - p);
+                        json!({"on": qq.q((rv.norm() - c.r()) / c.r(), u), "perp": qq.q(rv.dot(&tv) / (rv.norm() * tv.norm()), u),
+                               "side": cmp3(axis.x * rv.y - axis.y * rv.x, 0.0)})
+                    }).collect();
+                    json!({"some": true, "pts": pts, "finite": qq.finite})
+                }
+            })
+        }
+        // ---- circle / arc through three points that are nearly in line (the sine of the turn is given by the generator): accepted, and
+        //      the three points lie on it - relative residuals (unit 2^-30) of the distances to the centre against the radius
+        "arc3far" => {
+            let p0 = pt(&gvi(rec, "p0"), s);
+            let p1 = pt(&gvi(rec, "p1"), s);
+            let p2 = pt(&gvi(rec, "p2"), s);
+            let u = 1073741824.0;
+            let circ = guarded(|| match Circle2::from_3_points(p0, p1, p2) {
+                Err(_) => json!({"ok": false, "res": []}),
+                Ok(c) => {
+                    let mut qq = Q::new();
+                    let o = Point2::new(c.x(), c.y());
+                    let res: Vec<i64> = [p0, p1, p2].iter().map(|p| qq.q(((p - o).norm() - c.r()) / c.r(), u)).collect();
+                    json!({"ok": true, "res": res, "finite": qq.finite})
+                }
+            });
+            let arc = guarded(|| {
+                let a = Arc2::three_points(p0, p1, p2);
+                let mut qq = Q::new();
+                let rel = |x: &Point2, y: &Point2| (x - y).norm() / a.radius();
+                json!({"start": qq.q(rel(&a.start(), &p0), u), "end": qq.q(rel(&a.end(), &p2), u), "finite": qq.finite})
+            });
+            json!({"circ": circ, "arc": arc})
+        }
         // ---- a circle and a segment a'b' = [a - ext*(b-a), b + ext*(b-a)]
         "seg" => {
             let c = circle(&gvi(rec, "c"), s);
